@@ -21,50 +21,121 @@ pub proof fn lemma_resp_k(it: &ResponseIterator)
     lemma_pf_rec(u, pf_rrs_end(u, st, k));
 }
 
-// C08: "An iterator that changed a record's name still designates that record, and advancing it yields the record that followed"
-fn client_set_name(it: &mut ResponseIterator, name: &[u8]) -> (r: Result<(), Error>)
-    requires old(it).wf(), old(it).rr_iterator.offset.is_some(), !old(it).pp().maybe_compressed, pf_packet(old(it).pk()), old(it).pk().len() <= 0xffff,
-        !is_opt(old(it).pk(), old(it).rr_iterator.offset.unwrap() as int),
-    ensures
-        r.is_ok() ==> final(it).wf() && pf_packet(final(it).pk()) && !final(it).pp().maybe_compressed
-            && final(it).rr_iterator.offset == old(it).rr_iterator.offset && final(it).rr_iterator.rrs_left == old(it).rr_iterator.rrs_left
-            && final(it).rr_iterator.section == old(it).rr_iterator.section,
-        r.is_err() ==> final(it).wf() && final(it).pk() == old(it).pk(),
+// the state a resizing mutator works on: the entry state when the packet is pointer-free, its decompressed form otherwise.
+// For a valid cursor on record k of record section si, this lemma discharges the trait-level preconditions of set_raw_name / delete / uncompress.
+pub open spec fn cur_o(it: &ResponseIterator) -> usize {
+    if it.pp().maybe_compressed { bmap(it.pk(), it.rr_iterator.offset.unwrap() as int).unwrap() as usize } else { it.rr_iterator.offset.unwrap() }
+}
+pub open spec fn cur_ne(it: &ResponseIterator, mid: ParsedPacket) -> int {
+    if it.pp().maybe_compressed { rec_ne(mid.bytes(), cur_o(it) as int) } else { it.rr_iterator.name_end as int }
+}
+pub open spec fn cur_next(it: &ResponseIterator, mid: ParsedPacket) -> int {
+    if it.pp().maybe_compressed { rec_end(mid.bytes(), cur_o(it) as int) } else { it.rr_iterator.offset_next as int }
+}
+pub open spec fn mut_ready(it: &ResponseIterator) -> bool {
+    it.wf() && it.rr_iterator.offset.is_some() && it.pk().len() <= 0xffff
+    && (if it.pp().maybe_compressed { wf_packet(it.pk()) ==> unc_keeps_edns(it.pp()) && uncompress_spec(it.pk()).len() <= 0xffff } else { pf_packet(it.pk()) })
+}
+pub proof fn lemma_resp_pre(it: &ResponseIterator)
+    requires mut_ready(it), it.pp().maybe_compressed ==> wf_packet(it.pk())
+    ensures ({ let pp = it.pp(); let p = it.pk(); let off = it.rr_iterator.offset.unwrap() as int; let o = cur_o(it); let si = sec_idx(it.rr_iterator.section); let k = it.visited() - 1;
+        pp.packet.is_some() && 1 <= si <= 3 && sec_of_idx(si) == it.rr_iterator.section && 0 <= k && it.rr_iterator.rrs_left == it.count() - k - 1
+        && 0 <= it.rr_iterator.name_end && it.rr_iterator.name_end + 2 <= p.len()
+        && section_at(pp, it.rr_iterator.offset) == it.rr_iterator.section && !opt_lt(it.rr_iterator.offset, pp.offset_question)
+        && (pp.maybe_compressed ==> bmap(p, off).is_some() && 0 <= bmap(p, off).unwrap() <= uncompress_spec(p).len() && rec_ok(uncompress_spec(p), bmap(p, off).unwrap()))
+        && (forall|mid: ParsedPacket| #[trigger] after_unc(mid, pp) ==> {
+                let u = mid.bytes();
+                mid.wf() && pf_packet(u) && !mid.maybe_compressed && u.len() <= 0xffff && k < sec_n(u, si) && sec_n(u, si) == it.count() && o == pf_rrs_end(u, sec_st(u, si), k) && pf_rr(u, o as int)
+                && cur_ne(it, mid) == pcs_end(u, o as int).unwrap() && cur_next(it, mid) == pf_end(u, o as int)
+                && pf_is_opt(u, o as int) == is_opt(p, off)
+                && del_ok(mid, o, cur_ne(it, mid), cur_next(it, mid), it.rr_iterator.section)
+                && (!is_opt(p, off) ==> mid_ok::<ResponseIterator>(mid, o, cur_ne(it, mid), cur_next(it, mid))) }) }),
+{
+    hide(pf_rr); hide(pf_rrs); hide(pf_rrs_end); hide(pf_n_opt); hide(pf_packet); hide(opt_at); hide(pcs_walk); hide(rec_ok); hide(opts); hide(wf_bytes); hide(recs_all); hide(sec_end); hide(n_opt);
+    hide(ParsedPacket::wf); hide(walk); hide(skip_walk); hide(uncompress_spec); hide(bmap); hide(wf_packet);
+    let pp = it.pp(); let p = it.pk(); let off = it.rr_iterator.offset.unwrap() as int; let si = sec_idx(it.rr_iterator.section); let k = it.visited() - 1; let o = cur_o(it);
+    it.lemma_section();
+    it.lemma_wf_facts();
+    assert(wf_bytes(p)) by { reveal(ParsedPacket::wf); }
+    lemma_rec_bounds(p, off);
+    if pp.maybe_compressed {
+        let u = uncompress_spec(p);
+        theorem_c05(p);
+        lemma_bmap_rec(p, si, k);
+        lemma_pf_packet_facts(u);
+        lemma_opt_at_3(u, sec_st(u, si), sec_n(u, si), k, 1);
+        lemma_pf_rec(u, o as int);
+        assert forall|mid: ParsedPacket| #[trigger] after_unc(mid, pp) implies ({
+                let u = mid.bytes();
+                mid.wf() && pf_packet(u) && !mid.maybe_compressed && u.len() <= 0xffff && k < sec_n(u, si) && sec_n(u, si) == it.count() && o == pf_rrs_end(u, sec_st(u, si), k) && pf_rr(u, o as int)
+                && cur_ne(it, mid) == pcs_end(u, o as int).unwrap() && cur_next(it, mid) == pf_end(u, o as int)
+                && pf_is_opt(u, o as int) == is_opt(p, off)
+                && del_ok(mid, o, cur_ne(it, mid), cur_next(it, mid), it.rr_iterator.section)
+                && (!is_opt(p, off) ==> mid_ok::<ResponseIterator>(mid, o, cur_ne(it, mid), cur_next(it, mid))) }) by {
+            lemma_rec_cursor(mid, si, k);
+        }
+    } else {
+        lemma_resp_k(it);
+        lemma_rec_cursor(pp, si, k);
+        assert forall|mid: ParsedPacket| #[trigger] after_unc(mid, pp) implies ({
+                let u = mid.bytes();
+                mid.wf() && pf_packet(u) && !mid.maybe_compressed && u.len() <= 0xffff && k < sec_n(u, si) && sec_n(u, si) == it.count() && o == pf_rrs_end(u, sec_st(u, si), k) && pf_rr(u, o as int)
+                && cur_ne(it, mid) == pcs_end(u, o as int).unwrap() && cur_next(it, mid) == pf_end(u, o as int)
+                && pf_is_opt(u, o as int) == is_opt(p, off)
+                && del_ok(mid, o, cur_ne(it, mid), cur_next(it, mid), it.rr_iterator.section)
+                && (!is_opt(p, off) ==> mid_ok::<ResponseIterator>(mid, o, cur_ne(it, mid), cur_next(it, mid))) }) by {
+            lemma_wf_eq(mid, pp);
+            lemma_del_ok_eq(mid, pp, o, it.rr_iterator.name_end as int, it.rr_iterator.offset_next as int, sec_of_idx(si));
+            if !is_opt(p, off) { lemma_mid_ok_eq::<ResponseIterator>(mid, pp, o, it.rr_iterator.name_end as int, it.rr_iterator.offset_next as int); }
+        }
+    }
+}
+// the cursor invariant over the bytes of `fin`, for a cursor placed on record k (not the OPT record) of section si, the record extending over wl bytes
+pub proof fn lemma_cursor_wf(it: &ResponseIterator, si: int, k: int)
+    requires it.pp().wf(), pf_packet(it.pk()), 1 <= si <= 3, sec_of_idx(si) == it.rr_iterator.section, 0 <= k < sec_n(it.pk(), si),
+        ({ let v = it.pk(); let o = pf_rrs_end(v, sec_st(v, si), k);
+           it.rr_iterator.offset == Some(o as usize) && it.rr_iterator.name_end == rec_ne(v, o) && it.rr_iterator.offset_next == rec_end(v, o)
+           && it.rr_iterator.rrs_left == sec_n(v, si) - k - 1 }),
+    ensures it.wf()
 {
     hide(pf_rr); hide(pf_rrs); hide(pf_rrs_end); hide(pf_n_opt); hide(pf_packet); hide(opt_at); hide(pcs_walk); hide(rec_ok); hide(opts); hide(wf_bytes); hide(recs_all); hide(sec_end); hide(n_opt);
     hide(ParsedPacket::wf); hide(walk); hide(skip_walk);
+    let v = it.pk(); let st = sec_st(v, si); let n = sec_n(v, si); let o = pf_rrs_end(v, st, k);
+    lemma_pf_wf_bytes(v);
+    lemma_pf_packet_facts(v);
+    lemma_pf_recs(v, st, n);
+    lemma_opt_at_3(v, st, n, k, 1);
+    lemma_pf_rec(v, o);
+    lemma_pf_recs(v, pf_end(v, o), n - k - 1);
+    let vv = it.pp().packet.unwrap(); axiom_vec_len(&vv);
+    assert(it.pp().packet.is_some()) by { reveal(ParsedPacket::wf); }
+}
+
+// C08: "An iterator that changed a record's name still designates that record, and advancing it yields the record that followed"
+fn client_set_name(it: &mut ResponseIterator, name: &[u8]) -> (r: Result<(), Error>)
+    requires mut_ready(old(it)), !is_opt(old(it).pk(), old(it).rr_iterator.offset.unwrap() as int),
+    ensures
+        r.is_ok() ==> final(it).wf() && pf_packet(final(it).pk()) && !final(it).pp().maybe_compressed
+            && final(it).rr_iterator.offset.is_some() && final(it).rr_iterator.rrs_left == old(it).rr_iterator.rrs_left
+            && final(it).rr_iterator.section == old(it).rr_iterator.section && final(it).count() == old(it).count(),
+        final(it).tfin() == old(it).tfin(),
+{
+    hide(pf_rr); hide(pf_rrs); hide(pf_rrs_end); hide(pf_n_opt); hide(pf_packet); hide(opt_at); hide(pcs_walk); hide(rec_ok); hide(opts); hide(wf_bytes); hide(recs_all); hide(sec_end); hide(n_opt);
+    hide(ParsedPacket::wf); hide(walk); hide(skip_walk); hide(uncompress_spec); hide(bmap); hide(wf_packet);
     let ghost it0 = *it;
-    let ghost pp0 = it.pp(); let ghost u = it.pk(); let ghost si = sec_idx(it.rr_iterator.section); let ghost k = it.visited() - 1;
-    let ghost off = it.rr_iterator.offset.unwrap(); let ghost ne = it.rr_iterator.name_end as int; let ghost next = it.rr_iterator.offset_next as int;
-    proof {
-        lemma_resp_k(it);
-        lemma_rec_cursor(pp0, si, k);
-        assert(mid_ok::<ResponseIterator>(pp0, off, ne, next));
-        assert forall|mid: ParsedPacket| #[trigger] after_unc(mid, pp0) implies mid_ok::<ResponseIterator>(mid, off, ne, next) by { lemma_mid_ok_eq::<ResponseIterator>(mid, pp0, off, ne, next); }
-    }
+    let ghost pp0 = it.pp(); let ghost si = sec_idx(it.rr_iterator.section); let ghost k = it.visited() - 1; let ghost o = cur_o(it);
+    proof { assert(pp0.packet.is_some()) by { reveal(ParsedPacket::wf); } if pp0.maybe_compressed ==> wf_packet(pp0.bytes()) { lemma_resp_pre(it); } }
     let r = it.set_raw_name(name);
     proof {
         if r.is_ok() {
             let nm = name@.subrange(0, name_end(name@, 0).unwrap());
             lemma_own_name(name@);
-            let mid = choose|mid: ParsedPacket| #[trigger] after_unc(mid, pp0) && named(it.pp(), mid, off, ne, nm);
-            lemma_wf_eq(mid, pp0);
-            assert(pf_packet(mid.bytes()));
-            let fin = it.pp(); let v = fin.bytes(); let st = sec_st(u, si); let n = sec_n(u, si);
+            let mid = choose|mid: ParsedPacket| #[trigger] after_unc(mid, pp0) && named(it.pp(), mid, o, cur_ne(&it0, mid), nm);
+            let u = mid.bytes(); let fin = it.pp(); let v = fin.bytes(); let st = sec_st(u, si); let n = sec_n(u, si);
             lemma_named_wf(fin, mid, si, k, nm);
-            // the cursor invariant over the new bytes
-            lemma_pf_wf_bytes(v); lemma_pf_wf_bytes(u);
-            lemma_pf_packet_facts(v);
-            lemma_pf_recs(v, st, n);
-            lemma_pf_rec(v, off as int);
-            let wl = nm.len() + (next - ne);
-            lemma_pf_recs(v, off + wl, n - k - 1);
-            lemma_pf_packet_facts(u);
-            lemma_opt_at_3(u, st, n, k, 1);
-            lemma_pf_recs(u, next, n - k - 1);
-            assert(it.wf()) by { reveal(ParsedPacket::wf); }
-        } else {
-            reveal(ParsedPacket::wf);
+            lemma_pf_rec(v, o as int);
+            lemma_cursor_wf(it, si, k);
+            lemma_pf_wf_bytes(v);
         }
     }
     r
@@ -72,37 +143,37 @@ fn client_set_name(it: &mut ResponseIterator, name: &[u8]) -> (r: Result<(), Err
 
 // C11: "each deletion removes exactly the record under the cursor, a second deletion through the same cursor reports a void record without touching anything"
 fn client_delete(it: &mut ResponseIterator) -> (r: Result<(), Error>)
-    requires old(it).wf(), old(it).rr_iterator.offset.is_some(), !old(it).pp().maybe_compressed, pf_packet(old(it).pk()), old(it).pk().len() <= 0xffff,
+    requires mut_ready(old(it)), old(it).pp().maybe_compressed ==> wf_packet(old(it).pk()),
     ensures
         r.is_ok(),
         final(it).wf() && pf_packet(final(it).pk()) && !final(it).pp().maybe_compressed && final(it).rr_iterator.offset.is_none()
-            && final(it).rr_iterator.section == old(it).rr_iterator.section && final(it).tfin() == old(it).tfin() && final(it).pk().len() < old(it).pk().len(),
-        ({ let u = old(it).pk(); let v = final(it).pk(); let si = sec_idx(old(it).rr_iterator.section); let k = old(it).visited() - 1;
-           let st = sec_st(u, si); let n = sec_n(u, si); let o = old(it).rr_iterator.offset.unwrap() as int;
+            && final(it).rr_iterator.section == old(it).rr_iterator.section && final(it).tfin() == old(it).tfin() && final(it).pk().len() <= 0xffff,
+        final(it).count() == old(it).count() - 1,
+        // exactly that record is cut out of the (decompressed) packet
+        exists|mid: ParsedPacket| #[trigger] after_unc(mid, old(it).pp()) && ({
+           let u = mid.bytes(); let v = final(it).pk(); let si = sec_idx(old(it).rr_iterator.section); let k = old(it).visited() - 1;
+           let st = sec_st(u, si); let n = sec_n(u, si); let o = cur_o(old(it)) as int; let next = cur_next(old(it), mid);
            // the section now has n-1 records: the k records before the cursor where they were, the n-k-1 after it moved up to the cursor's position
            sec_st(v, si) == st && sec_n(v, si) == n - 1 && pf_rrs_end(v, st, k) == o && pf_rrs(v, st, n - 1) && pf_rrs(v, o, n - k - 1)
-           && v.len() == u.len() - (old(it).rr_iterator.offset_next - o)
+           && v.len() == u.len() - (next - o) && o < next
            && (forall|i: int| 12 <= i < o ==> v[i] == u[i])
-           && (forall|i: int| o <= i < v.len() ==> v[i] == u[i + (old(it).rr_iterator.offset_next - o)]) }),
+           && (forall|i: int| o <= i < v.len() ==> v[i] == u[i + (next - o)]) }),
 {
     hide(pf_rr); hide(pf_rrs); hide(pf_rrs_end); hide(pf_n_opt); hide(pf_packet); hide(opt_at); hide(pcs_walk); hide(rec_ok); hide(opts); hide(wf_bytes); hide(recs_all); hide(sec_end); hide(n_opt);
-    hide(ParsedPacket::wf); hide(walk); hide(skip_walk);
-    let ghost pp0 = it.pp(); let ghost u = it.pk(); let ghost si = sec_idx(it.rr_iterator.section); let ghost k = it.visited() - 1;
-    let ghost off = it.rr_iterator.offset.unwrap(); let ghost ne = it.rr_iterator.name_end as int; let ghost next = it.rr_iterator.offset_next as int;
-    proof {
-        lemma_resp_k(it);
-        lemma_rec_cursor(pp0, si, k);
-        lemma_pf_rr_spec(u, off as int, SecT::Answer, false);
-        assert(pcs_end(u, off as int).is_some() && ne + 10 <= u.len()) by { reveal(pf_rr); }
-        assert forall|mid: ParsedPacket| #[trigger] after_unc(mid, pp0) implies del_ok(mid, off, ne, next, section_at(pp0, Some(off))) by { lemma_del_ok_eq(mid, pp0, off, ne, next, sec_of_idx(si)); }
-    }
+    hide(ParsedPacket::wf); hide(walk); hide(skip_walk); hide(uncompress_spec); hide(bmap); hide(wf_packet);
+    let ghost it0 = *it;
+    let ghost pp0 = it.pp(); let ghost p = it.pk(); let ghost si = sec_idx(it.rr_iterator.section); let ghost k = it.visited() - 1; let ghost o = cur_o(it);
+    let ghost ne0 = it.rr_iterator.name_end as int;
+    proof { lemma_resp_pre(it); }
     let r = it.delete();
     proof {
         let s = sec_of_idx(si);
-        let mid = choose|mid: ParsedPacket| #[trigger] after_unc(mid, pp0) && deleted(it.pp(), mid, off, next, s, s is Additional && be16(u, ne) == 41);
-        lemma_wf_eq(mid, pp0);
-        let fin = it.pp(); let v = fin.bytes();
+        let mid = choose|mid: ParsedPacket| #[trigger] after_unc(mid, pp0) && deleted(it.pp(), mid, o, cur_next(&it0, mid), s, s is Additional && be16(p, ne0) == 41);
+        let fin = it.pp(); let v = fin.bytes(); let u = mid.bytes();
+        assert(pf_is_opt(u, o as int) == (be16(p, ne0) == 41));
         lemma_deleted_wf(fin, mid, si, k);
+        lemma_pf_rr_spec(u, o as int, SecT::Answer, false);
+        lemma_pf_wf_bytes(v);
         assert(it.wf()) by { reveal(ParsedPacket::wf); }
     }
     // a second deletion through the same cursor
@@ -145,39 +216,40 @@ fn client_insert(pp: &mut ParsedPacket, section: Section, rr: RR) -> (r: Result<
 }
 
 
-// C11: a walk that deletes every record it is given terminates, and the emptied section reads as absent
+// C11: a walk that deletes every record it is given terminates, and the emptied section reads as absent (compressed or pointer-free packet)
 fn client_delete_all_answers(pp: &mut ParsedPacket) -> (n: usize)
-    requires old(pp).wf(), !old(pp).maybe_compressed, pf_packet(old(pp).bytes()), old(pp).bytes().len() <= 0xffff
-    ensures final(pp).wf(), pf_packet(final(pp).bytes()), !final(pp).maybe_compressed,
-        sec_n(final(pp).bytes(), 1) == 0, final(pp).offset_answers.is_none(), n == sec_n(old(pp).bytes(), 1),
+    requires old(pp).wf(), old(pp).bytes().len() <= 0xffff,
+        (if old(pp).maybe_compressed { wf_packet(old(pp).bytes()) && unc_keeps_edns(*old(pp)) && uncompress_spec(old(pp).bytes()).len() <= 0xffff } else { pf_packet(old(pp).bytes()) }),
+    ensures final(pp).wf(), n == sec_count(old(pp).bytes(), Section::Answer),
+        n > 0 ==> pf_packet(final(pp).bytes()) && !final(pp).maybe_compressed,
+        sec_count(final(pp).bytes(), Section::Answer) == 0, final(pp).offset_answers.is_none(),
 {
     hide(pf_rr); hide(pf_rrs); hide(pf_rrs_end); hide(pf_n_opt); hide(pf_packet); hide(opt_at); hide(pcs_walk); hide(rec_ok); hide(opts); hide(wf_bytes); hide(recs_all); hide(sec_end); hide(n_opt);
-    hide(ParsedPacket::wf); hide(walk); hide(skip_walk);
-    let ghost cnt0 = sec_n(pp.bytes(), 1);
+    hide(walk); hide(skip_walk); hide(uncompress_spec); hide(bmap); hide(wf_packet);
+    let ghost cnt0 = sec_count(pp.bytes(), Section::Answer);
     let ghost fin = *final(pp);
     let mut n: usize = 0;
     let mut it = pp.into_iter_answer();
     while let Some(item) = it
         invariant
             n <= cnt0 <= 0xffff,
-            it matches Some(i) ==> i.wf() && i.rr_iterator.offset.is_some() && i.rr_iterator.section is Answer && !i.pp().maybe_compressed && pf_packet(i.pk())
-                && i.pk().len() <= 0xffff && sec_n(i.pk(), 1) == cnt0 - n && i.tfin() == fin,
-            it is None ==> fin.wf() && pf_packet(fin.bytes()) && !fin.maybe_compressed && sec_n(fin.bytes(), 1) == 0 && n == cnt0,
-        ensures fin.wf() && pf_packet(fin.bytes()) && !fin.maybe_compressed && sec_n(fin.bytes(), 1) == 0 && n == cnt0,
+            it matches Some(i) ==> mut_ready(&i) && i.rr_iterator.section is Answer && (i.pp().maybe_compressed ==> wf_packet(i.pk()))
+                && i.count() == cnt0 - n && i.tfin() == fin,
+            it is None ==> fin.wf() && sec_count(fin.bytes(), Section::Answer) == 0 && n == cnt0 && (n > 0 ==> pf_packet(fin.bytes()) && !fin.maybe_compressed),
+        ensures fin.wf() && sec_count(fin.bytes(), Section::Answer) == 0 && n == cnt0 && (n > 0 ==> pf_packet(fin.bytes()) && !fin.maybe_compressed),
         decreases cnt0 - n
     {
         let mut item = item;
-        proof { lemma_resp_k(&item); }
+        proof { item.lemma_wf_facts(); }
         let _ = client_delete(&mut item);
         n += 1;
         let ghost v = item.pk();
         proof {
             // no OPT record in the answer section: the restart yields a record whenever one is left
-            reveal(ParsedPacket::wf); reveal(wf_bytes);
+            reveal(wf_bytes);
             if sec_count(v, Section::Answer) >= 1 { lemma_no_opt_at(v, sec_start(v, Section::Answer), sec_count(v, Section::Answer), 0); }
         }
         it = item.next();
     }
-    proof { lemma_wf_offsets(fin); }
     n
 }
